@@ -126,7 +126,7 @@ func (c c14Case) run(viol func(sig, detail string), r *core.Run) {
 		}
 	}
 	ls := lsFor(s)
-	for _, how := range []string{"Reify", "unixfs", "unixfs-preload"} {
+	for _, how := range []string{"Reify", "unixfs", "unixfs-preload", "Reify/zero-linkcontext", "unixfs/zero-linkcontext", "unixfs-preload/zero-linkcontext"} {
 		var n datamodel.Node
 		var rerr error
 		if p, pv := core.Guard(func() { n, rerr = openVia(how, ls, node) }); p {
